@@ -29,7 +29,7 @@ type c12Event struct {
 
 func (e c12Event) String() string {
 	switch e.Kind {
-	case "success", "failure", "return":
+	case "success", "failure", "return", "failure-reaccept":
 		return fmt.Sprintf("%s(#%d)", e.Kind, e.Inst)
 	case "cleanup":
 		return fmt.Sprintf("cleanup(+%s)", e.Adv)
@@ -197,7 +197,7 @@ func (h *c12Harness) apply(e c12Event) string {
 			}
 		}
 		h.waiting = w
-	case "success", "failure", "return":
+	case "success", "failure", "return", "failure-reaccept":
 		live, _ := h.live()
 		var cands []*c12Inst
 		for _, in := range live {
@@ -213,6 +213,21 @@ func (h *c12Harness) apply(e c12Event) string {
 		in.released = true
 		h.mu.Unlock()
 		switch e.Kind {
+		case "failure-reaccept":
+			// The failing run records its failure in two steps (it lets go of the sender's lock
+			// in between to note the stage under the progress lock); the receiver's next accept
+			// is handled exactly in between. The progress lock is held for at most 40 ms to park
+			// the run there.
+			var once sync.Once
+			h.s.progressMu.Lock()
+			unlock := func() { once.Do(h.s.progressMu.Unlock) }
+			timer := time.AfterFunc(40*time.Millisecond, unlock)
+			in.release <- errors.New("transfer failed (injected, accept follows at once)")
+			time.Sleep(3 * time.Millisecond)
+			r := h.apply(c12Event{Kind: "accept", Peer: in.peer})
+			timer.Stop()
+			unlock()
+			return r
 		case "success":
 			in.release <- nil
 		case "failure":
@@ -455,7 +470,7 @@ func c12Run(maxRecv int, evs []c12Event) (sig, detail string, stats map[string]i
 func genC12Events(t *rapid.T, n int, npeers int) []c12Event {
 	var evs []c12Event
 	for i := 0; i < n; i++ {
-		k := rapid.SampledFrom([]string{"join", "accept", "accept", "accept", "leave", "success", "failure", "return", "return", "cleanup"}).Draw(t, fmt.Sprintf("ev%d", i))
+		k := rapid.SampledFrom([]string{"join", "accept", "accept", "accept", "leave", "success", "failure", "failure-reaccept", "return", "return", "cleanup"}).Draw(t, fmt.Sprintf("ev%d", i))
 		e := c12Event{Kind: k, Peer: rapid.SampledFrom(c12Peers[:npeers]).Draw(t, fmt.Sprintf("peer%d", i)), Inst: rapid.IntRange(0, 3).Draw(t, fmt.Sprintf("inst%d", i))}
 		if k == "cleanup" {
 			e.Adv = rapid.SampledFrom([]time.Duration{time.Minute, 6 * time.Minute, 6 * time.Minute, 11 * time.Minute}).Draw(t, fmt.Sprintf("adv%d", i))
